@@ -6,6 +6,7 @@ import Emerge.Driver.ParseEval
 import Emerge.Driver.Emitted
 import Emerge.Driver.Cli
 import Emerge.Driver.Lalr
+import Emerge.Driver.Reader
 /-
   Model driver: one case per input line, one result per output line (same protocol as the Go harness).
 -/
@@ -35,6 +36,7 @@ def dispatch (cmd : String) (fields : List String) : String :=
   | "lalr" => cmdLalrCheck fields
   | "renfafixed" => cmdReNFAFixed fields
   | "reast" => cmdReAST fields
+  | "reader" => cmdReader fields
   | _ => "UNKNOWN-COMMAND"
 
 partial def loop (cmd : String) (h : IO.FS.Stream) (out : IO.FS.Stream) : IO Unit := do
